@@ -68,4 +68,59 @@ Section Step.
     destruct (Z.of_nat inp =? Z.of_nat k) eqn:Eeq; [lia|].
     rewrite Hmask. rewrite Nat2Z.id, Hslot. cbv beta iota. unfold Hw.follow. rewrite Hrd. reflexivity.
   Qed.
+  (* ---- the steps at which the walk stops ---- *)
+  Lemma out_slot_empty r x k : In r (c_rts c) -> emit_rt (c_desc c) ri r = Ok x ->
+    nth_error (cr_out r) k = Some None -> nth_error (rt_outs nt x) k = Some [].
+  Proof.
+    intros Hr Hx Hk. destruct (emitted_rt c ri n He Hnd r Hr) as (x' & Hx' & _ & _ & O1 & _ & O2 & _ & O3 & _).
+    rewrite Hx in Hx'. inversion Hx'; subst x'.
+    pose proof (C05_model d g c Hb Hc r Hr) as Hp.
+    assert (Hin : nth_error (cr_in r) k = Some None).
+    { clear -Hp Hk. revert k Hk. induction Hp as [|a b l l' Hab _ IH]; intros [|k] Hk; cbn in *; try discriminate.
+      - inversion Hk; subst b. destruct a; [contradiction|reflexivity].
+      - apply IH. exact Hk. }
+    destruct Hnt as [-> | [-> | (-> & Hnw)]]; cbn [rt_outs].
+    - rewrite O1. unfold out_sig. rewrite nth_error_map, Hk. reflexivity.
+    - rewrite O2. unfold out_sig. rewrite nth_error_map, Hin. reflexivity.
+    - rewrite O3, Hcd, Hnw. unfold out_sig. rewrite nth_error_map, Hk. reflexivity.
+  Qed.
+  Lemma out_slot_none r x k : In r (c_rts c) -> emit_rt (c_desc c) ri r = Ok x ->
+    nth_error (cr_out r) k = None -> nth_error (rt_outs nt x) k = None.
+  Proof.
+    intros Hr Hx Hk. destruct (emitted_rt c ri n He Hnd r Hr) as (x' & Hx' & _ & _ & O1 & _ & O2 & _ & O3 & _).
+    rewrite Hx in Hx'. inversion Hx'; subst x'.
+    pose proof (C05_model d g c Hb Hc r Hr) as Hp.
+    assert (Hlen : length (cr_in r) = length (cr_out r)) by (clear -Hp; induction Hp; cbn; congruence).
+    apply nth_error_None in Hk.
+    destruct Hnt as [-> | [-> | (-> & Hnw)]]; cbn [rt_outs]; apply nth_error_None.
+    - rewrite O1. unfold out_sig. rewrite map_length. exact Hk.
+    - rewrite O2. unfold out_sig. rewrite map_length. lia.
+    - rewrite O3, Hcd, Hnw. unfold out_sig. rewrite map_length. exact Hk.
+  Qed.
+
+  Theorem hw_stop r x inp h k h' fuel rts sigs :
+    In r (c_rts c) -> emit_rt (c_desc c) ri r = Ok x -> select n x h = Ok (Z.of_nat k, h') ->
+    classify (t_out (walk (S fuel) n nt (URt (cr_name r) inp) h rts sigs)) =
+      if Nat.eqb inp k then XLoop
+      else if is_xy h && xy_masked (Z.of_nat inp) (Z.of_nat k) then XTurn
+      else match nth_error (cr_out r) k with
+           | Some (Some _) => classify (t_out (walk (S fuel) n nt (URt (cr_name r) inp) h rts sigs))
+           | _ => XOpen
+           end.
+  Proof.
+    intros Hr Hx Hsel.
+    destruct (emitted_rt c ri n He Hnd r Hr) as (x' & Hx' & Hfind & Hname & _). rewrite Hx in Hx'. inversion Hx'; subst x'.
+    destruct (Nat.eqb_spec inp k) as [->|Hne].
+    - cbn [walk]. rewrite Hfind, Hsel. destruct (Z.of_nat k <? 0) eqn:Eneg; [lia|]. rewrite Z.eqb_refl. reflexivity.
+    - destruct (is_xy h && xy_masked (Z.of_nat inp) (Z.of_nat k)) eqn:Em.
+      + cbn [walk]. rewrite Hfind, Hsel. destruct (Z.of_nat k <? 0) eqn:Eneg; [lia|].
+        destruct (Z.of_nat inp =? Z.of_nat k) eqn:Eeq; [lia|]. rewrite Em. reflexivity.
+      + destruct (nth_error (cr_out r) k) as [[l|]|] eqn:Ek; [reflexivity| |].
+        * cbn [walk]. rewrite Hfind, Hsel. destruct (Z.of_nat k <? 0) eqn:Eneg; [lia|].
+          destruct (Z.of_nat inp =? Z.of_nat k) eqn:Eeq; [lia|]. rewrite Em, Nat2Z.id.
+          rewrite (out_slot_empty r x k Hr Hx Ek). reflexivity.
+        * cbn [walk]. rewrite Hfind, Hsel. destruct (Z.of_nat k <? 0) eqn:Eneg; [lia|].
+          destruct (Z.of_nat inp =? Z.of_nat k) eqn:Eeq; [lia|]. rewrite Em, Nat2Z.id.
+          rewrite (out_slot_none r x k Hr Hx Ek). reflexivity.
+  Qed.
 End Step.
